@@ -752,11 +752,21 @@ class Item:
         b, o, e = self._loop_span(fn_name, ordinal)
         hdr = self.text[b:o]
         m = re.match(r'(\s*)for (\w+) in &mut ([\w\.]+)\s*$', hdr, re.S)
+        guard = None
+        if not m:
+            # `V.iter_mut()` is the same iteration; one `.take_while(|y| P)` / `.filter(|y| P)` adapter becomes a guard at the top of the body
+            m2 = re.match(r'(\s*)for (\w+) in ([\w\.]+)\.iter_mut\(\)(?:\s*\.(take_while|filter)\(\|(\w+)\| (.*)\))?\s*$', hdr, re.S)
+            if m2:
+                ind, x, v, kind, y, pred = m2.groups()
+                m = m2
+                if kind:
+                    guard = (kind, y, pred.strip())
+        else:
+            ind, x, v = m.groups()
         if not m and optional:
             return self
         if not m:
             raise ExtractError('%s: R16 loop #%d is not `for x in &mut V`: %s' % (self.name, ordinal, hdr.strip()))
-        ind, x, v = m.groups()
         sfx = suffix if suffix is not None else str(ordinal)
         n, k = '__n' + sfx, '__k' + sfx
         body = self.text[o + 1:e - 1]
@@ -766,8 +776,14 @@ class Item:
         body2 = re.sub(r'\b%s\b(?=\.)' % re.escape(x), '%s[%s]' % (v, k), body)
         new_hdr = '%slet mut %s: usize = 0;\n%swhile %s < %s.len() ' % (ind, n, ind, n, v)
         body_ins = '\n%s    let %s = %s;\n%s    %s += 1;' % (ind, k, n, ind, n)
+        if guard:
+            kind, y, pred = guard
+            p2 = re.sub(r'\b%s\b(?=\.)' % re.escape(y), '%s[%s]' % (v, k), pred)
+            if re.search(r'\b%s\b' % re.escape(y), p2):
+                raise ExtractError('%s: R16 loop #%d: the %s predicate uses `%s` other than as a receiver' % (self.name, ordinal, kind, y))
+            body_ins += '\n%s    if !(%s) {\n%s        %s;\n%s    }' % (ind, p2, ind, 'break' if kind == 'take_while' else 'continue', ind)
         self.text = self.text[:b] + new_hdr + '{' + body_ins + body2 + self.text[e - 1:]
-        self._log('R16', 'for-in-&mut loop #%d in %s -> counted while over %s (element written %s[%s])' % (ordinal, fn_name, v, v, k))
+        self._log('R16', 'for-in-&mut loop #%d in %s -> counted while over %s (element written %s[%s]%s)' % (ordinal, fn_name, v, v, k, ('; .%s(..) -> guard' % guard[0]) if guard else ''))
         return self
 
     # ------------------------------------------------------------------ locating loops
